@@ -156,6 +156,7 @@ PROPS["C08"] = {
         plain("regress", "rtpconn", "TestVerif_C08_Regress_.*"),
         plain("regress-group", "group", "TestVerif_C08_Regress_.*"),
         rapid("decision-procedure", "group", "TestVerif_C08_DecisionProcedure", 4000, 30000),
+        rapid("legacy-definitions", "group", "TestVerif_C08_LegacyDefinitions", 2000, 15000),
         rapid("makepassword-roundtrip", "galenectl", "TestVerif_C08_MakePasswordRoundTrip", 1200, 8000),
         rapid("login-machine", "rtpconn", "TestVerif_C08_LoginMachine", 250, 2000, quick_shards=4),
         rapid("api-reads-vs-logins", "webserver", "TestVerif_C08_ApiReadsVsLogins", 160, 1200, shards=8, quick_shards=4),
